@@ -62,6 +62,11 @@ def cases(tier, rng):
                 [["obj", "E", 4], ["obj", "C", 0], ["obj", "G", 4]], [["obj", "C", 9], ["obj", "C", 4]], [["obj", "C", 4], ["obj", "C", 9]],
                 [["obj", "G", 5], ["obj", "C", 0], ["obj", "C", 9], ["obj", "E", 4]], [["obj", "B", 6], ["obj", "E", 3]]]
         yield Case("track.run", [instr, [["add_raw", r, 4] for r in raws]], "instrument/raw-list/" + instr, kind=("rawrange", instr))
+    # a free-meter bar (0, 0) is never full: everything added after it lands in that one bar
+    for instr in ("none", "Piano"):
+        ops = [["add_bar", "C", 0, 0], ["add", C4, 4], ["add", CHORD, 4], ["add", None, 2], ["add", C4, 1], ["plus", CHORD], ["add", E3, 8]]
+        yield Case("track.run", [instr, ops], "free-meter", kind=("freebar",))
+        yield Case("track.run", [instr, [["add", C4, 1], ["add_bar", "Eb", 0, 0]] + ops[1:]], "free-meter/after-full-bar", kind=("freebar",))
     chord_lists = [["C", "Am", "F", "G7"], ["C", None, "G"], [None], [["C", "G"], "Am"], [["C", ["F", None]], None, "Dm7"],
                    ["C", "C", "C", "C", "C"], [None, None, None], ["Ebm7b5", ["Ab13", None, ["Db", "Gb"]]]]
     for cl in chord_lists:
@@ -189,6 +194,18 @@ def oracle(c, obs):
                 return "a note inside the instrument's range was refused"
             if not want and st != Err("InstrumentRangeError"):
                 return "a note outside the instrument's range was not refused with InstrumentRangeError"
+        return None
+    if kind[0] == "freebar":
+        ops = c["args"][1]
+        k = [i for i, op in enumerate(ops) if op[0] == "add_bar"][0]
+        nb = len(obs[k][1])                       # bars right after the free-meter bar was appended
+        for op, st in zip(ops[k + 1:], obs[k + 1:]):
+            if isinstance(st[0], Err) or st[0] is not True:
+                return "an item added to a free-meter bar was not accepted"
+            if len(st[1]) != nb:
+                return "a new bar was opened although the last bar (free meter) is not full"
+        if len(obs[-1][-1][4]) != len(ops) - k - 1:
+            return "the free-meter bar does not hold every item added after it"
         return None
     if kind[0] == "rawrange":
         instr = kind[1]
